@@ -4,6 +4,7 @@ From Coq Require Import List NArith Bool.
 Import ListNotations.
 From HV Require Import Model.Chars Model.Parse Spec.Grammar Spec.Lang Proofs.ParseSpec Proofs.ParseAll Proofs.ParseArea Proofs.ListingSpec.
 From HV Require Proofs.ListingProofs.
+From HV Require Model.Listing Proofs.Listing2Spec Proofs.Listing2Proofs.
 Open Scope N_scope.
 
 (* clause 1a: every way of writing — any concrete syntax tree satisfying the context condition, with arbitrary
@@ -58,6 +59,14 @@ Print Assumptions C08_listing_line_injective.
 Theorem C08_location_injective : forall l c l' c', loc_text l c = loc_text l' c' -> l = l' /\ c = c'.
 Proof. exact ListingProofs.loc_injective. Qed.
 Print Assumptions C08_location_injective.
+
+(* the COMPLETE text printed by `hyeong check FILE` (Model/Listing.v: index column, `file:line:col`, paddings, one row per
+   command) determines every command: two files with the same listing hold the same commands at the same places *)
+Theorem C08_check_output_determines_commands : forall fname text text', ~ In 10 fname ->
+  Listing.check_listing fname text = Listing.check_listing fname text' ->
+  map (fun c => (ty c, hc c, dc c, loc c, ar c)) (parse text) = map (fun c => (ty c, hc c, dc c, loc c, ar c)) (parse text').
+Proof. exact Listing2Proofs.check_listing_determines. Qed.
+Print Assumptions C08_check_output_determines_commands.
 
 Example C08_examples :
   let cs := [mkcmd 3 4 2 ([([Some 2; None], Some 13)], ([], None)); mkcmd 0 1 0 ([], ([], None)); mkcmd 5 2 1 ([], ([None], Some 3))] in
